@@ -7,9 +7,9 @@
  *     string(n, c)           -> n times c   (ws is a self loop of the acceptor, so one step stands for n >= 1 steps)
  *     child->serialize(...)  -> the token T_VAL ("one JSON value"), at least one byte long (every serialization is non-empty)
  *     an escaped key         -> the token T_STRBODY ("characters between the quotation marks of a string")
- * g_count counts the T_VAL tokens; g_args_ok records that every child was serialised with the options of the parent and, under
- * FORMAT, with indent_level + 2 (else with the default 0), that keys were escaped with the mode selected by the options and that
- * list elements are emitted in list order.
+ * g_count counts the T_VAL tokens; g_args_ok records that every child was serialised with the options of the parent (its
+ * indent_level only changes the amount of whitespace and is not constrained), that keys were escaped with the mode selected by
+ * the options and that list elements are emitted in list order.
  *
  * Two flavours: -DC04_EMIT_ABSTRACT: no bytes, only size and acceptor state (sizes unbounded; "the text fits in memory" is the
  * assume in C04_GROW); otherwise real bytes (child = the byte 'V'), used by the bounded end-to-end run against the parser. */
@@ -105,7 +105,7 @@ static inline void C04_emit_child(vstr* s, size_t child, uint32_t options, size_
   C04_GROW(s, 1);
   C04_PUT(s, 'V');
 #endif
-  g_args_ok = g_args_ok && options == g_options && indent_level == (g_format ? g_indent + 2 : 0);
+  g_args_ok = g_args_ok && options == g_options;
 #if !C04_DICT
   g_args_ok = g_args_ok && child == g_count;      /* list order is kept (a dict has no order) */
 #endif
